@@ -539,6 +539,50 @@ Definition upload_run (c : config) (x : script) : result :=
         end
     end.
 
+(* ---------------------------------------------------------------- honest servers *)
+(* every processed allocate_buckets answer allocates only share numbers its query asked for *)
+Fixpoint allocs_honest (resps : list (N * al_resp)) (pending : list (N * list N)) : bool :=
+  match resps with
+  | [] => true
+  | (p, r) :: rest =>
+      match lookup_ask p pending with
+      | None => allocs_honest rest pending
+      | Some ask => (match r with AlOk _ alloc => subsetb alloc ask | AlErr => true end) && allocs_honest rest (drop_ask p pending)
+      end
+  end.
+
+Definition round_honest (c : config) (r : round) (st : sel) : bool :=
+  let '(_, sent) := send_queries (r_plan r) (trackers c) st [] in allocs_honest (r_resps r) sent.
+
+(* follows sel_loop: the rounds that are actually run are honest *)
+Fixpoint loop_honest (c : config) (rounds : list round) (last : option Z) (st : sel) : bool :=
+  match rounds with
+  | [] => true
+  | r :: rest =>
+      round_honest c r st &&
+      match do_round c r st with
+      | None => true
+      | Some (st', _) =>
+          match happiness st' with
+          | None => true
+          | Some eff =>
+              if match last with Some l => Z.eqb eff l | None => false end then true
+              else if N.eqb (s_bad st) (s_bad st') then true
+              else if Z.ltb eff (c_happy c) && negb (is_nil (s_wtrackers st')) then loop_honest c rest (Some eff) st'
+              else true
+          end
+      end
+  end.
+
+Definition honest_run (c : config) (x : script) : Prop :=
+  loop_honest c (x_rounds x) None (fst (phase1 c (x_existing x) (trackers c) (sel_init c))) = true.
+
+Definition plans_functional (x : script) : Prop := forall r, In r (x_rounds x) -> NoDup (map fst (r_plan r)).
+
+Definition honest_runb (c : config) (x : script) : bool :=
+  forallb (fun r => nodupN (map fst (r_plan r))) (x_rounds x) &&
+  loop_honest c (x_rounds x) None (fst (phase1 c (x_existing x) (trackers c) (sel_init c))).
+
 (* ---------------------------------------------------------------- comparison helpers for the driver *)
 Definition pair_eqb (a b : N * N) : bool := N.eqb (fst a) (fst b) && N.eqb (snd a) (snd b).
 Definition pairs_subset (a b : list (N * N)) : bool := forallb (fun x => existsb (pair_eqb x) b) a.
